@@ -126,6 +126,24 @@ pub fn j3_constants() {
     }
     obl!(ok, "bitsliced_round_constants_decode_to_the_specification_constants");
 }
+/// J3 in six segments of seven rounds (the layouts are 7-periodic by J4, so segment s starts from layout 0);
+/// the segments run in parallel, the unsplit harness stays in the thorough tier
+pub fn j3_constants_seg(s: usize) {
+    let rc = jh_x86_64::compressor::verif_incrate::round_constants();
+    let mut c = spec::constant0();
+    let mut r = 0;
+    while r < 7 * s { c = spec::next_constant(c); r += 1; }
+    let mut l = layout0();
+    let mut ok = true;
+    while r < 7 * s + 7 {
+        let k = [crate::jh_core::words(&rc[r], 0), crate::jh_core::words(&rc[r], 16)];
+        ok &= eq256(&decode_sel(&k, &l), &spec::selector_bits(&c));
+        c = spec::next_constant(c);
+        l = next_layout(&l, r);
+        r += 1;
+    }
+    obl!(ok, "bitsliced_round_constants_decode_to_the_specification_constants");
+}
 pub fn j4_layouts() {
     let l0 = layout0();
     let mut l = l0;
@@ -161,4 +179,10 @@ harness_x!(c06_e8_j2_round_class4, [], j2_round(4));
 harness_x!(c06_e8_j2_round_class5, [], j2_round(5));
 harness_x!(c06_e8_j2_round_class6, [], j2_round(6));
 harness_x!(c06_e8_j3_constants, [], j3_constants());
+harness_x!(c06_e8_j3_constants_seg0, [], j3_constants_seg(0));
+harness_x!(c06_e8_j3_constants_seg1, [], j3_constants_seg(1));
+harness_x!(c06_e8_j3_constants_seg2, [], j3_constants_seg(2));
+harness_x!(c06_e8_j3_constants_seg3, [], j3_constants_seg(3));
+harness_x!(c06_e8_j3_constants_seg4, [], j3_constants_seg(4));
+harness_x!(c06_e8_j3_constants_seg5, [], j3_constants_seg(5));
 harness_x!(c06_e8_j4_layouts, [], j4_layouts());
